@@ -16,9 +16,12 @@ import (
 	"sort"
 	"strconv"
 	"strings"
+	"sync/atomic"
+	"time"
 
 	NoKV "github.com/feichai0017/NoKV"
 	"github.com/feichai0017/NoKV/utils"
+	"github.com/feichai0017/NoKV/vfs"
 
 	"verif/harness/hlib"
 )
@@ -35,7 +38,7 @@ type engine struct {
 }
 
 func (e *engine) Rule() string {
-	return *prop + ": interleaved begin/get/set/del/commit/commitwith/discard/versions/close of handles 1..4 over 3 keys (one of length 2), limits MaxBatchCount in {4,5,6,64} / MaxBatchSize in {70,100,160,1MiB} / ValueThreshold in {8,1024}; non-trivial = at least one commit answered conflict and at least two successful read-write commits that wrote a common key"
+	return *prop + ": interleaved begin/get/scan/set/del/commit/commitwith/discard/versions/close/reopen of handles 1..4 over 3 keys (12% of the cases from a directed history-pruning template, 8% ending in a directed value-log fault batch) (one of length 2), limits MaxBatchCount in {4,5,6,64} / MaxBatchSize in {70,100,160,1MiB} / ValueThreshold in {8,1024}; non-trivial = at least one commit answered conflict and at least two successful read-write commits that wrote a common key"
 }
 
 func val(r *hlib.Rand) []byte {
@@ -47,10 +50,73 @@ func val(r *hlib.Rand) []byte {
 	return b
 }
 
+// genPrune: directed template for histories in which the conflict history is pruned while a
+// reader still needs part of it: an old reader pins the read mark, a key is written twice with a
+// read-write transaction reading it in between, the old reader ends, a further commit runs the
+// cleanup, and the reader commits.  Keys, filler commits and the read path (get / scan) vary.
+func genPrune(r *hlib.Rand) []string {
+	ops := []string{"open 64 1048576 1024"}
+	w := func(id int, k []byte) {
+		ops = append(ops, fmt.Sprintf("begin %d u", id), fmt.Sprintf("set %d %s %s", id, hlib.Hex(k), hlib.Hex(val(r))), fmt.Sprintf("commit %d", id))
+	}
+	k := hlib.Pick(r, keys)
+	other := func() []byte {
+		for {
+			if o := hlib.Pick(r, keys); string(o) != string(k) {
+				return o
+			}
+		}
+	}
+	for i := r.Intn(3); i > 0; i-- {
+		w(1, other())
+	}
+	if r.Chance(80) {
+		ops = append(ops, "begin 4 "+hlib.Pick(r, []string{"r", "u"})) // old reader
+	}
+	w(1, k)
+	for i := r.Intn(3); i > 0; i-- {
+		w(1, other())
+	}
+	ops = append(ops, "begin 2 u")
+	if r.Chance(35) {
+		ops = append(ops, "scan 2")
+	} else {
+		ops = append(ops, fmt.Sprintf("get 2 %s", hlib.Hex(k)))
+	}
+	ops = append(ops, fmt.Sprintf("set 2 %s %s", hlib.Hex(other()), hlib.Hex(val(r))))
+	if r.Chance(85) {
+		w(1, k) // the conflicting write
+	}
+	for i := r.Intn(2); i > 0; i-- {
+		w(1, other())
+	}
+	ops = append(ops, "discard 4")
+	if r.Chance(30) {
+		ops = append(ops, "begin 3 r", "discard 3")
+	}
+	for i := 1 + r.Intn(2); i > 0; i-- {
+		w(1, other())
+	}
+	ops = append(ops, "commit 2")
+	for _, kk := range keys {
+		ops = append(ops, "versions "+hlib.Hex(kk))
+	}
+	return ops
+}
+
 func (e *engine) Gen(r *hlib.Rand, tier string) []string {
+	if r.Chance(12) {
+		return genPrune(r)
+	}
 	mc := hlib.Pick(r, []int{4, 5, 6, 64, 64, 64})
 	ms := hlib.Pick(r, []int{70, 100, 160, 1 << 20, 1 << 20, 1 << 20})
 	thr := hlib.Pick(r, []int{8, 1024, 1024})
+	// fault cases end in the directed value-log fault scenario; they need value-log values
+	// committed before it (threshold 8) and room for its 5000-byte value
+	fault := r.Chance(8)
+	if fault {
+		mc, ms, thr = 64, 1<<20, 8
+	}
 	ops := []string{fmt.Sprintf("open %d %d %d", mc, ms, thr)}
 	n := 14 + r.Intn(40)
 	nh := 3 + r.Intn(2)
@@ -66,6 +132,7 @@ func (e *engine) Gen(r *hlib.Rand, tier string) []string {
 		n = 40 + r.Intn(50) // long overlapping read-modify-write transactions
 	}
 	closed := false
+	reopens := 0
 	begin := func(id int) {
 		m := "r"
 		if r.Chance(pUpd) {
@@ -74,6 +141,15 @@ func (e *engine) Gen(r *hlib.Rand, tier string) []string {
 		ops = append(ops, fmt.Sprintf("begin %d %s", id, m))
 		live[id] = true
 		delete(lastRead, id)
+	}
+	read := func(id int, k []byte) {
+		// a read through Get, or through an iterator scan (which reads every key)
+		if r.Chance(20) {
+			ops = append(ops, fmt.Sprintf("scan %d", id))
+		} else {
+			ops = append(ops, fmt.Sprintf("get %d %s", id, hlib.Hex(k)))
+		}
+		lastRead[id] = k
 	}
 	for i := 0; i < n; i++ {
 		id := 1 + r.Intn(nh)
@@ -97,13 +173,11 @@ func (e *engine) Gen(r *hlib.Rand, tier string) []string {
 				live[id] = false
 				continue
 			}
-			ops = append(ops, fmt.Sprintf("get %d %s", id, hlib.Hex(k)))
-			lastRead[id] = k
+			read(id, k)
 		case x < 60:
 			if hot && lastRead[id] == nil && !closed && r.Chance(85) {
 				// contention mode: read-modify-write, so read first
-				ops = append(ops, fmt.Sprintf("get %d %s", id, hlib.Hex(k)))
-				lastRead[id] = k
+				read(id, k)
 				continue
 			}
 			if lastRead[id] != nil && r.Chance(70) {
@@ -115,8 +189,7 @@ func (e *engine) Gen(r *hlib.Rand, tier string) []string {
 		case x < 83:
 			if hot && lastRead[id] == nil && !closed && r.Chance(80) {
 				// contention mode: do not commit before having read something
-				ops = append(ops, fmt.Sprintf("get %d %s", id, hlib.Hex(k)))
-				lastRead[id] = k
+				read(id, k)
 				continue
 			}
 			ops = append(ops, fmt.Sprintf("commit %d", id))
@@ -127,16 +200,35 @@ func (e *engine) Gen(r *hlib.Rand, tier string) []string {
 		case x < 87+pDiscard:
 			ops = append(ops, fmt.Sprintf("discard %d", id))
 			live[id] = false
-		case x < 98:
+		case x < 96:
 			ops = append(ops, "versions "+hlib.Hex(k))
+		case x < 98:
+			// Close + Open: every handle dies; also right after the first commit(s), where the
+			// recovered version is smallest
+			if reopens < 2 && !fault {
+				ops = append(ops, "reopen")
+				reopens++
+				closed = false
+				live = map[int]bool{}
+				lastRead = map[int][]byte{}
+			} else {
+				ops = append(ops, "versions "+hlib.Hex(k))
+			}
 		default:
-			if i > n/2 && !closed {
+			if i > n/2 && !closed && !fault {
 				ops = append(ops, "close")
 				closed = true
 			} else {
 				ops = append(ops, "versions "+hlib.Hex(k))
 			}
 		}
+	}
+	if fault {
+		ops = append(ops, fmt.Sprintf("vlogfault 5000 %02x", 0x70+r.Intn(8)), "begin 1 r")
+		for _, k := range keys {
+			ops = append(ops, "get 1 "+hlib.Hex(k))
+		}
+		ops = append(ops, "scan 1")
 	}
 	if !closed {
 		for _, k := range keys {
@@ -189,6 +281,8 @@ func errClass(err error) string {
 	switch {
 	case err == nil:
 		return "ok"
+	case errors.Is(err, errInjected):
+		return "iofail"
 	case errors.Is(err, utils.ErrKeyNotFound):
 		return "notfound"
 	case errors.Is(err, utils.ErrConflict):
@@ -209,9 +303,24 @@ func errClass(err error) string {
 	return "other:" + strings.ReplaceAll(err.Error(), " ", "_")
 }
 
+var errInjected = errors.New("injected value log segment creation failure")
+
+// faultArmed: while set, the next creation/open of a value-log segment file fails once
+// (vfs.FaultFS hook; every case runs on a FaultFS so that `vlogfault` works in any case).
+var faultArmed atomic.Bool
+
+func faultHook(op vfs.Op, path string) error {
+	if op == vfs.OpOpenFile && strings.HasSuffix(path, ".vlog") && strings.Contains(path, "bucket-000") &&
+		faultArmed.CompareAndSwap(true, false) {
+		return errInjected
+	}
+	return nil
+}
+
 func openDB(dir string, mc, ms, thr int64) *NoKV.DB {
 	opt := NoKV.NewDefaultOptions()
 	opt.WorkDir = dir
+	opt.FS = vfs.NewFaultFS(vfs.OSFS{}, faultHook)
 	opt.DetectConflicts = true
 	opt.MaxBatchCount = mc
 	opt.MaxBatchSize = ms
@@ -225,7 +334,7 @@ func openDB(dir string, mc, ms, thr int64) *NoKV.DB {
 	opt.WriteBatchWait = 0
 	// small footprints: Open costs ~0.3 s with the default caches and compactor pool
 	opt.MemTableSize = 1 << 20
-	opt.ValueLogFileSize = 1 << 20
+	opt.ValueLogFileSize = 4 << 10 // small segments: rotation is routine, and `vlogfault` can force one
 	opt.NumCompactors = 1
 	opt.BlockCacheSize = 0
 	opt.BloomCacheSize = 0
@@ -246,6 +355,7 @@ func (e *engine) Exec(ops []string) (out []string) {
 		os.RemoveAll(dir)
 	}()
 	txns := map[string]*NoKV.Txn{}
+	pmc, pms, pthr := int64(64), int64(1<<20), int64(1024)
 	one := func(op string) (res string) {
 		defer func() {
 			if r := recover(); r != nil {
@@ -258,10 +368,10 @@ func (e *engine) Exec(ops []string) (out []string) {
 			if db != nil {
 				return "bad-op"
 			}
-			mc, _ := strconv.ParseInt(f[1], 10, 64)
-			ms, _ := strconv.ParseInt(f[2], 10, 64)
-			thr, _ := strconv.ParseInt(f[3], 10, 64)
-			db = openDB(dir, mc, ms, thr)
+			pmc, _ = strconv.ParseInt(f[1], 10, 64)
+			pms, _ = strconv.ParseInt(f[2], 10, 64)
+			pthr, _ = strconv.ParseInt(f[3], 10, 64)
+			db = openDB(dir, pmc, pms, pthr)
 			return "ok"
 		}
 		if db == nil {
@@ -321,6 +431,30 @@ func (e *engine) Exec(ops []string) (out []string) {
 			}
 			t.Discard()
 			return "ok"
+		case "scan":
+			t := txns[f[1]]
+			if t == nil {
+				return "notxn"
+			}
+			return scanAll(t)
+		case "reopen":
+			// Close + Open of the same directory; every handle of the old instance is dropped
+			if err := db.Close(); err != nil {
+				return "other:" + strings.ReplaceAll(err.Error(), " ", "_")
+			}
+			txns = map[string]*NoKV.Txn{}
+			db = openDB(dir, pmc, pms, pthr)
+			return "ok"
+		case "vlogfault":
+			// the stall value is ValueThreshold+8 copies of the tag byte: long enough to go to the
+			// value log whatever the threshold (the Lean driver builds the same value)
+			n2, _ := strconv.Atoi(f[1])
+			tb := hlib.UnHex(f[2])
+			tag := make([]byte, pthr+8)
+			for i := range tag {
+				tag[i] = tb[0]
+			}
+			return vlogFault(db, txns, n2, tag)
 		case "close":
 			if err := db.Close(); err != nil {
 				return "other:" + strings.ReplaceAll(err.Error(), " ", "_")
@@ -351,6 +485,107 @@ func (e *engine) Exec(ops []string) (out []string) {
 	}
 	e.cases++
 	return out
+}
+
+// scanAll = NewIterator(IteratorOptions{}) + Rewind + Next to the end + Close
+func scanAll(t *NoKV.Txn) (res string) {
+	defer func() {
+		if r := recover(); r != nil {
+			msg := fmt.Sprint(r)
+			switch {
+			case strings.Contains(msg, "already been discarded"):
+				res = "discarded"
+			case strings.Contains(msg, "DB Closed"):
+				res = "closed"
+			default:
+				res = "panic:" + strings.ReplaceAll(msg, " ", "_")
+			}
+		}
+	}()
+	it := t.NewIterator(NoKV.IteratorOptions{})
+	var parts []string
+	for it.Rewind(); it.Valid(); it.Next() {
+		en := it.Item().Entry()
+		parts = append(parts, hlib.Hex(en.Key)+"="+hlib.Hex(en.Value))
+	}
+	it.Close()
+	if len(parts) == 0 {
+		return "scan:-"
+	}
+	return "scan:" + strings.Join(parts, ",")
+}
+
+// vlogFault is the directed scenario of the `vlogfault n2 tag` line (see Driver/Mvcc.lean):
+// transactions 97 (inline value `tag`), 98 (100-byte value) and 99 (n2-byte value, larger than a
+// value-log segment, so it needs a new segment) are begun and written; 97 is committed with the
+// commit worker parked behind db.Lock() (the worker takes it after writing a request to the LSM),
+// so that 98 and 99, queued meanwhile, are picked up as one batch; the creation of the next
+// value-log segment then fails once.  `tag` (97's value) must be at least ValueThreshold long:
+// its value-log append is how the harness sees that the worker has taken the stall batch.
+func vlogFault(db *NoKV.DB, txns map[string]*NoKV.Txn, n2 int, tag []byte) string {
+	stallWritten := false
+	mk := func(id string, k, v []byte) *NoKV.Txn {
+		t := db.NewTransaction(true)
+		txns[id] = t
+		if err := t.Set(k, v); err == nil && id == "97" {
+			stallWritten = true
+		}
+		return t
+	}
+	rep := func(b byte, n int) []byte {
+		out := make([]byte, n)
+		for i := range out {
+			out[i] = b
+		}
+		return out
+	}
+	stall := mk("97", []byte("st"), tag)
+	t1 := mk("98", []byte("t1"), rep(99, 100))
+	t2 := mk("99", []byte("t2"), rep(100, n2))
+	c0, c1, c2 := make(chan error, 1), make(chan error, 1), make(chan error, 1)
+	wait := func(ch chan error) string {
+		select {
+		case err := <-ch:
+			return errClass(err)
+		case <-time.After(20 * time.Second):
+			return "timeout"
+		}
+	}
+	if db.IsClosed() {
+		stall.CommitWith(func(err error) { c0 <- err })
+		t1.CommitWith(func(err error) { c1 <- err })
+		t2.CommitWith(func(err error) { c2 <- err })
+		return wait(c0) + "," + wait(c1) + "," + wait(c2)
+	}
+	// The worker writes a batch to the value log, then takes db.Lock() (applyRequests) before it
+	// touches the LSM: once the active value-log offset has moved, the batch holding the stall
+	// request is formed and the worker is (or will be) parked on the lock we hold.
+	fid0, off0, _ := db.VerifVlogActive(0)
+	db.Lock()
+	stall.CommitWith(func(err error) { c0 <- err })
+	parked := !stallWritten // nothing to park on when the stall write was refused (limits)
+	deadline := time.Now().Add(5 * time.Second)
+	if parked {
+		deadline = time.Now()
+	}
+	for time.Now().Before(deadline) {
+		if fid, off, err := db.VerifVlogActive(0); err == nil && (fid != fid0 || off != off0) {
+			parked = true
+			break
+		}
+		time.Sleep(200 * time.Microsecond)
+	}
+	t1.CommitWith(func(err error) { c1 <- err })
+	t2.CommitWith(func(err error) { c2 <- err })
+	faultArmed.Store(true)
+	db.Unlock()
+	res := wait(c0) + "," + wait(c1) + "," + wait(c2)
+	unfired := faultArmed.Swap(false)
+	if !parked {
+		res += "!not-parked"
+	}
+	_ = unfired
+	return res
 }
 
 func (e *engine) Extra() map[string]any { return map[string]any{"property": *prop} }
